@@ -33,6 +33,19 @@ CHECKS = {
         note='The finder patterns are contract stubs in (1); their contract (canonical text -> exactly the labelled segments) is '
              'the L-EXACT family of C01. Document invariant from the preprocessor: a Twp/Rge is followed by >= 1 character unless '
              'it ends the text. Strings outside the vocabulary, unicode, and >3 segments are outside the bound.'),
+    'C04': dict(
+        engine='S+M', category='other', design_ref='DESIGN.md §4 C04',
+        technique='CrossHair symbolic execution of the real marker walk / chunker / rebuild_sec_within / cleanup_desc / examine_unused '
+                  'on provenance documents (every filler word accounted for by provenance); z3 exact bounded regex model of the live '
+                  'preprocessing patterns (a substitution never reaches into a following prose word)',
+        text='S: for every document of the bounded family under all 11 parse modes, each word of each filler ends up, by document '
+             'index, inside a tract description or inside the context of an unused_desc error flag. M: for each of the six '
+             'SCRUBBER_REGEXES, on Twp/Rge (3x4x7x4 spelling combinations, symbolic 1-3 digit numbers) + separator + lower-case prose '
+             '(<= 5 / 10 chars), N <= 32 / 44: the match never extends into the prose; for pp_twprge_pm additionally: a P.M. '
+             'designation never starts or ends inside a word.',
+        note='Three by-design drops are listed as known findings and reported as KNOWN-FINDING: trailing cull words cut by '
+             'cleanup_desc, unused blocks shorter than 4 characters, and up to 25 characters between a Twp/Rge and a P.M. '
+             'designation. Any other lost word is a VIOLATION. Contract finder patterns as in C03.'),
     'C09': dict(
         engine='S', category='other', design_ref='DESIGN.md §4 C09',
         technique='CrossHair symbolic execution of the real tract-construction glue (construct_tracts, get_next_twprge/sec, '
